@@ -22,9 +22,12 @@ def build_binary(race=False):
 
 
 def free_ports(n):
+    """n port numbers that were free a moment ago: UDP ports for the listeners; the fifth is the port of the statistics
+    HTTP server and is therefore probed as a TCP port (a UDP probe says nothing about it, and a collector whose HTTP
+    server cannot bind ends itself with logger.Fatal after its UDP sockets were reported ready)"""
     socks, ports = [], []
-    for _ in range(n):
-        s = socket.socket(socket.AF_INET, socket.SOCK_DGRAM)
+    for i in range(n):
+        s = socket.socket(socket.AF_INET, socket.SOCK_STREAM if i == 4 else socket.SOCK_DGRAM)
         s.bind(("127.0.0.1", 0))
         socks.append(s)
         ports.append(s.getsockname()[1])
@@ -614,6 +617,10 @@ def startup_cycle(n, seed, binary):
         if st == "crash" or (st is True and not alive):
             lg = vf.log()
             i = max(lg.find("DATA RACE"), lg.find("fatal error"), lg.find("panic:"))
+            if i < 0 and "address already in use" in lg:
+                return "not-started", "", sample      # a port picked by the harness was taken by another process: no verdict
+            if i < 0:
+                i = max(0, len(lg) - 880)             # died without a crash report: show how the log ends
             return "start-crashed", "fail:startup the collector died / raced while starting under traffic (ipfix.elements %s): %s" % (
                 "installed" if installed else "absent", lg[max(0, i - 20):i + 900].replace("\n", " | ")), sample
         if not st:
